@@ -31,3 +31,11 @@ check("C32", "exploration",
   "Trusted: shuttle RwLock model, the independent wire/TSIG code in the harness (HMAC construction written out over sha1/sha2 hash functions).",
   "deterministic simulation: seeded schedule search, generation-marker and event-sequence freshness oracles",
   "E1 simrt-threads", "DESIGN.md section 4 (C32)")
+ENGINES[0]["serves_properties"] = ["C28", "C29", "C30", "C32"]
+ENGINES.append({"name": "E2 tokio-paused", "path": "sim/simrt/src/tokio_net.rs + sim/harness/src/props/c30_tokio.rs", "serves_properties": ["C30"],
+  "kind_free_text": "the real io/tokio.rs on a current-thread Tokio runtime with paused clock (discrete-event time) and RNG seeded from the recorded random stream, inside one simulated task; simulated async sockets with fault injection (short reads/writes, spurious Pending, datagram loss/dup/delay/send errors)"})
+check("C30", "exploration",
+  "Whole-system seeded runs of both I/O providers (even runs: blocking provider incl. thread pool and listener/UDP worker threads on simulated threads; odd runs: Tokio provider on a paused, seeded current-thread runtime) on a simulated network: arbitrary segmentation (down to single octets, inside the length prefix, across messages), pipelining / half-close / stop-and-wait, slow readers with back-pressure, response-less and malformed requests, resets and stalls, EINTR on every call, short reads/writes, datagram loss/dup/reorder/delay/truncation/send errors, spurious wake-ups, spawn failure, mid-run shutdown. Oracles: TCP byte stream == concatenation of len||reference_response up to the first response-less request, then EOF (exact under DES without connection faults; message-granular prefix otherwise); UDP: every datagram the server sends matches exactly one request it received (destination, source address selection, content, size <= payload) and, without send faults, every request is answered exactly once; shutdown completes within poll + read time-outs of simulated time; no provider thread/task panics. Sampling, not proof.",
+  "Trusted: the simulated socket layer (the real socket code in src/io/socket/unix_*.rs is NOT run), shuttle-engine, Tokio's current-thread scheduler and paused clock. Reference responses come from the same Server code answering the request alone (that is the property). Step-bound exhaustion is inconclusive, never a violation.",
+  "deterministic simulation: whole-system runs on a simulated network with seeded fault injection, schedule search (blocking) / seeded timing and fault search (Tokio), reference-stream oracle",
+  "E1 simrt-threads", "DESIGN.md section 4 (C30)")
